@@ -2,6 +2,7 @@ package main
 
 import (
 	"fmt"
+	"math"
 	"math/rand/v2"
 	"regexp"
 	"sort"
@@ -1024,6 +1025,70 @@ func (g *gen) matcherProbe(i int) *Node {
 		return g.agg(pick(g, []string{"sum", "count", "max"}), "by", n)
 	}
 	return n
+}
+
+// nanProbe: an *_over_time function over ONE series of the family with NaN / Inf samples,
+// evaluated so that an ordinary (non-stale) NaN or Inf sample is the OLDEST sample of the
+// window, the newest one, or the only one: functions that fold the window from its first sample
+// must not let a NaN stick. nil when the set has no such sample.
+func (g *gen) nanProbe(i int) (*Node, EvalParams, bool) {
+	var p EvalParams
+	cs := g.set.byMetric["temp_c"]
+	type at struct {
+		s *SeriesData
+		j int
+	}
+	var cand []at
+	for _, s := range cs {
+		for j := range s.V {
+			if !isStale(s.V[j]) && (math.IsNaN(s.V[j]) || math.IsInf(s.V[j], 0)) {
+				cand = append(cand, at{s, j})
+			}
+		}
+	}
+	if len(cand) == 0 {
+		return nil, p, false
+	}
+	c := cand[g.rng.IntN(len(cand))]
+	s := c.s
+	fn := []string{"max_over_time", "min_over_time", "avg_over_time", "sum_over_time", "last_over_time", "count_over_time", "quantile_over_time", "stddev_over_time"}[i%8]
+	n := &Node{Kind: "rfn", Metric: s.Metric(), MKind: s.Kind, Fn: fn, Range: pick(g, []int64{45000, 60000, 90000, 120000})}
+	if fn == "quantile_over_time" {
+		n.Param = pick(g, quants)
+	}
+	labels := make([]string, 0, len(s.Labels))
+	for k := range s.Labels {
+		if k != "__name__" {
+			labels = append(labels, k)
+		}
+	}
+	sort.Strings(labels)
+	for _, k := range labels {
+		m := Matcher{Label: k, Op: "=", Value: s.Labels[k]}
+		g.set.classify(n.Metric, &m)
+		n.Matchers = append(n.Matchers, m)
+	}
+	t := s.T[c.j]
+	switch (i / 8) % 3 {
+	case 0:
+		p.IClass = "nan-is-oldest-sample-of-the-window"
+		p.Instant = t + n.Range - 1 // the window (instant-range, instant] starts just before the sample
+	case 1:
+		p.IClass = "nan-is-newest-sample-of-the-window"
+		p.Instant = t + int64(g.rng.IntN(1000))
+	default:
+		p.IClass = "nan-inside-the-window"
+		p.Instant = t + n.Range/2
+	}
+	p.StepClass = "across-a-nan-sample"
+	p.Step = pick(g, []int64{15000, 7500, 20000})
+	p.Start = t - n.Range/2
+	steps := 2 * n.Range / p.Step
+	if steps > 24 {
+		steps = 24
+	}
+	p.End = p.Start + steps*p.Step
+	return n, p, true
 }
 
 // edgeProbe: a range function over ONE series (selected by all of its labels) evaluated
